@@ -17,7 +17,7 @@
        `data: null`), and the `_entities` count faults for batch fetches;
    [sub_b a b]                            a equals b except for absent object members and nulls. *)
 From Gv Require Import lib.Bytes lib.Json C02.Model C02.Spec C07.Model C07.Spec
-     C07.ProofsErrors C07.ProofsMono C07.ProofsJson C07.ProofsExamples.
+     C07.ProofsErrors C07.ProofsMono C07.ProofsJson C07.ProofsUnaff C07.ProofsExamples.
 From Coq Require Import String.
 Open Scope N_scope.
 Open Scope string_scope.
@@ -44,6 +44,26 @@ Theorem c07_unaffected_identical :
     get_loc l (ls_data (run answer root_answer kind_of no_faults t)) = Some v.
 Proof. exact no_corruption_proof. Qed.
 Print Assumptions c07_unaffected_identical.
+
+(* unaffected_equal: let A contain the faulted fetches and be closed under dependants ([closed_in]:
+   whoever depends on a member is a member).  Knocking out ALL of A (a transport error for every
+   member, so that nothing of A contributes and nothing outside A is touched) loses nothing that the
+   faulty run keeps: the data of that run is contained in the data of the faulty run -- which is
+   contained in the fault-free data (c07_monotone), where every scalar is the fault-free scalar
+   (c07_unaffected_identical).  So what the fetches outside A produce is all present, unchanged.
+   Needs subgraph answers without duplicate object keys ([json_wf]) and a faulty run that does not
+   fail as a whole (see c07_response_merge_order_refuted for how it can). *)
+Theorem c07_unaffected_equal :
+  forall (answer : N -> bytes -> json * list json) (root_answer : N -> json * list json) (kind_of : N -> fkind)
+         (F : N -> option fault) (A : N -> bool) (t : ftree),
+    (forall id k, F id = Some k -> loud (kind_of id) k = true) ->
+    (forall id rep, json_wf (fst (answer id rep)) = true) -> (forall id, json_wf (fst (root_answer id)) = true) ->
+    (forall id k, F id = Some k -> A id = true) -> closed_in A t ->
+    fplan_wf kind_of t = true -> consistent answer root_answer kind_of t = true ->
+    ls_hard (run answer root_answer kind_of F t) = false ->
+    sub_b (ls_data (run answer root_answer kind_of (knock A) t)) (ls_data (run answer root_answer kind_of F t)) = true.
+Proof. exact unaffected_lower_proof'. Qed.
+Print Assumptions c07_unaffected_equal.
 
 (* requests_subset, as stated in the property, is false of the loader: a nullable @requires field
    whose provider failed (any non-transport failure) is sent as null to the dependent subgraph *)
@@ -132,6 +152,18 @@ Print Assumptions c07_response_merge_order_refuted.
 
 (* ---- non-vacuity: plan 1 of ProofsExamples (root fetch, entity fetch, de-duplicating batch fetch
    in a Sequence/Parallel tree) satisfies every hypothesis, with a loud fault that changes the data ---- *)
+Example c07_unaffected_hypotheses_satisfiable :
+  let A := fun id => N.eqb id 2 in
+  closed_in A p1_tree /\ (forall id rep, json_wf (fst (p1_answer id rep)) = true) /\ (forall id, json_wf (fst (p1_root_answer id)) = true) /\
+  ls_hard (p1_run (fault_at 2 FtNullData)) = false /\
+  ls_data (p1_run (knock A)) = ls_data (p1_run (fault_at 2 FtNullData)) /\ ls_data (p1_run (knock A)) <> ls_data (p1_run no_faults).
+Proof.
+  cbv zeta. split.
+  - intros f Hf d Hd Ha. simpl in Hf. destruct Hf as [<-|[<-|[<-|[]]]]; simpl in Hd; try contradiction; destruct Hd as [<-|[]]; discriminate.
+  - split; [intros id rep; unfold p1_answer; destruct id as [|[| |]]; reflexivity|]. split; [intros id; reflexivity|].
+    vm_compute. repeat split. discriminate.
+Qed.
+
 Example c07_hypotheses_satisfiable :
   fplan_wf p1_kind p1_tree = true /\ consistent p1_answer p1_root_answer p1_kind p1_tree = true /\
   loud (p1_kind 2) FtTransport = true /\
